@@ -347,6 +347,16 @@ def run_oracles(pid, tier, seed, stats, log, mult=1, known_hits=None):
             x['n'] = n
         per[name] = {'cases': n, 'violations': len(mine), 's': round(time.time() - t0, 1)}
         v += mine
+    if mult == 1 and pid == 'C10':
+        t0 = time.time()
+        nmax, kmax = (150, 32) if tier == 'quick' else (700, 80)
+        g = O.oracle_split_exhaustive(nmax, kmax, stats)
+        per['split_table_exhaustive'] = {'cases': stats.c.get('oracle.split_exhaustive.cases', 0), 'violations': len(g), 'nmax': nmax, 'kmax': kmax, 's': round(time.time() - t0, 1)}
+        for x in g:
+            x['oracle'] = 'exhaustive-grid'
+            x['seed'] = seed
+            x['n'] = 1
+        v += g
     if mult == 1 and pid in ('C04', 'C14'):
         t0 = time.time()
         nmax = 40 if tier == 'quick' else 160
